@@ -38,7 +38,7 @@ ASSUMPTIONS = [
 ]
 SHARD_TIMEOUT = {"quick": 600, "thorough": 5400}
 BOUNDS = {"quick": dict(n=600, plans=3), "thorough": dict(n=60000, plans=3)}
-PROFILE = dict(int_params=0.15)
+PROFILE = dict(int_params=0.15, coinciding_forall=0.12)
 
 
 def plan(tier, seed):
@@ -157,6 +157,27 @@ def judge_pair(pb, steps, wbase, res, pid=None, label=None):
     return v
 
 
+def pin_final_state(pb, final):
+    from fractions import Fraction
+    from vk.ref import seqsem
+
+    pb2 = pb.clone()
+    pb2.clear_goals()
+    em = pb.environment.expression_manager
+    for f, args in seqsem.ground_fluents(pb):
+        if (f.name, args) not in final:
+            continue
+        fe = seqsem.fexp(pb, f, args)
+        val = final[(f.name, args)]
+        if f.type.is_bool_type():
+            pb2.add_goal(fe if val else em.Not(fe))
+        elif f.type.is_user_type():
+            pb2.add_goal(em.Equals(fe, em.ObjectExp(pb.object(val))))
+        else:
+            pb2.add_goal(em.Equals(fe, em.Real(Fraction(val)) if Fraction(val).denominator != 1 else em.Int(int(val))))
+    return pb2
+
+
 def run_case(key, tier, b, res):
     from unified_planning.engines.plan_validator import TimeTriggeredPlanValidator
     from unified_planning.exceptions import UPException
@@ -197,7 +218,15 @@ def run_case(key, tier, b, res):
             res.count("plans:guided" if mode < 0.65 else "plans:guided-prefix")
         try:
             steps = plan_steps(pb, pl)
-            judge_pair(pb, steps, {**wbase, "plan_index": j}, res, pid=pid)
+            v = judge_pair(pb, steps, {**wbase, "plan_index": j}, res, pid=pid)
+            # observation goals: when the plan is executable by the reference (nothing fails but, possibly, the goal), a copy of
+            # the problem whose goal pins every defined ground fluent to the reference final state must be VALID: a difference
+            # in the *values* the validator computes (accumulated increases, add-after-delete, ...) becomes a status difference
+            if v is not None and v.final_state is not None and not v.dontcares and all(f["code"] == "goal" for f in v.failures) and steps:
+                pb2 = pin_final_state(pb, v.final_state)
+                steps2 = [(st, pb2.action(a.name), args, d) for st, a, args, d in steps]
+                res.count("observation_goal_validations")
+                judge_pair(pb2, steps2, {**wbase, "plan_index": j, "observation_goal": True}, res, pid=pid + ":obs")
         except Unsupported:
             res.count("skipped_unsupported_by_oracle")
 
